@@ -350,7 +350,7 @@ PLAN["C10"] = dict(
 )
 
 PLAN["C17"] = dict(
-    technique="model-based PBT: parameter lists rendered from a spec (separators, terminators, quoted values, empty items, LWS/folds), expected items/verdict/offset by construction; illegal-byte injection; list wrappers with capacities; metamorphic Via-branch signature",
+    technique="model-based PBT: parameter lists rendered from a spec (separators, terminators, quoted values, empty items, LWS/folds), expected items/verdict/offset by construction; exhaustive enumeration of all small specs (<= 2 items with every whitespace placement, 3 without) x flag sets x terminators x entry points; illegal-byte injection; list wrappers with capacities; metamorphic + absolute Via-branch signature",
     level_text=("Exploration: ParseTokenParam (called repeatedly with a fresh parameter after more-values), ParseAllURIParams "
                 "and ParseAllURIHdrs on generated lists of 0..5 items (token/quoted/empty/missing values, LWS and folds around "
                 "names, '=' and separators, empty items incl. trailing ones) under generated option flags (all 256 sets sampled; "
@@ -369,10 +369,12 @@ PLAN["C17"] = dict(
     quick=[
         dict(test="TestC17Rapid", checks=30000, shards=10, counts=["C17.list"]),
         dict(test="TestC17ViaRapid", checks=30000, shards=4, counts=["C17.viabr"]),
+        dict(kind="enum", test="TestC17Enum", timeout=600),
     ],
     thorough=[
         dict(test="TestC17Rapid", checks=3000000, shards=12, counts=["C17.list"], timeout=5400),
         dict(test="TestC17ViaRapid", checks=3000000, shards=4, counts=["C17.viabr"], timeout=5400),
+        dict(kind="enum", test="TestC17Enum", solo=True, timeout=3000, env={"VERIF_DEPTH": 1}),
     ],
 )
 
